@@ -1216,6 +1216,10 @@ fn corpus() -> Vec<&'static str> {
         "M 1 o 0 - 0908100000061000000000000000000000000000bd000c000000050000000600000004000a000000",
         // D31: DIMENSIONS whose last row precedes the first
         "M 1 o 0 - 090810000006100000000000000000000000000000020e0005000000030000000200010000000a000000",
+        // FORMULA records out of row order: the formula range's from_sparse panics (known finding, found by the thorough tier)
+        "M 17632450602671588669 oo 0 - 090810000006100000000000000000000000000004020f000000000002000300013dd800de160406001900020701000200010001000000ffff00000000000003001e030006001900040000000100030000000000ffff00000000000003001e03000502080004000200020001000a000000",
+        // FORMULA with a numeric result under a date XF (typed by the XF since 0b12e07)
+        "F 5 od 0 - 1,1,1,0,n40e5700000000000,F00/1e0100/-,-",
         // date / time-delta XFs on NUMBER and RK cells, 1904 workbook
         "F 4 odt 1 - 0,0,1,0,n40e5700000000000,N,-;0,1,2,0,n3fe0000000000000,K1071644672,-;0,2,1,0,n4059000000000000,K402,-",
     ]
